@@ -6,6 +6,8 @@ import RsddModel.Driver.SddStream
 import RsddModel.Driver.OrdStream
 import RsddModel.Driver.OptStream
 import RsddModel.Driver.UpStream
+import RsddModel.Driver.TdStream
+import RsddModel.Driver.CompStream
 /-!
 # Line-protocol driver
 
@@ -30,6 +32,8 @@ def judge (line : String) : String :=
     | "ord" => checkOrdLine kvs rhs
     | "opt" => checkOptLine kvs rhs
     | "up" => checkUpLine kvs rhs
+    | "td" => checkTdLine kvs rhs
+    | "comp" => checkCompLine kvs rhs
     | _ => s!"FAIL PARSE unknown stream {stream}"
 
 partial def loop (h : IO.FS.Stream) : IO Unit := do
